@@ -61,7 +61,7 @@ Lemma readonly_step s o : quiet s -> app_op o = true ->
   view (snd (step s o)) = view s /\ quiet (snd (step s o)) /\ (mutating o = true -> fst (step s o) <> Done).
 Proof.
   intros Hq Ha. pose proof Hq as [Hw [Hl [Hf Hc]]].
-  destruct o as [p q|n|c| | | |fr c| | | |b|f|pages commit ok|ages backup hwm|c2|pj qj]; cbn [app_op] in Ha; try discriminate; cbn [step mutating].
+  destruct o as [p q|n|c| | | |fr c| | | |b|f|pages commit ok|ages backup hwm|c2|pj qj|pz qz]; cbn [app_op] in Ha; try discriminate; cbn [step mutating].
   - (* OWrite *) unfold op_write_page. rewrite Hw. cbn. repeat split; try assumption. intros _; discriminate.
   - (* OTruncate *) unfold op_truncate. destruct (N.eqb_spec n (pageN s)) as [E|E]; cbn [negb fst snd].
     2:{ repeat split; try assumption. intros H; discriminate H. }
@@ -78,7 +78,7 @@ Proof.
         apply nth_error_firstn. lia. }
       apply H; lia.
     + unfold quiet. rewrite B1, B6, B7, B5. cbn [s1 with_file writeable wal_latest wal_file wal_chk]. tauto.
-  - (* OCommitJournal *) unfold op_commit_journal. rewrite Hw. cbn. repeat split; try assumption. intros _; discriminate.
+  - (* OCommitJournal *) rewrite Hw. cbn [andb]. unfold op_commit_journal. rewrite Hw. cbn. repeat split; try assumption. intros _; discriminate.
   - (* OInvalidateJournal *) unfold op_invalidate_journal. cbn [fst snd]. split; [apply view_ext; try reflexivity; intros p; reflexivity|].
     split; [unfold quiet, with_dirty; cbn; tauto|intros H; discriminate H].
   - (* OWalHeader *) unfold op_wal_header, with_wal. cbn [fst snd]. split; [|split; [|intros H; discriminate H]].
@@ -127,7 +127,7 @@ Lemma late_commit_refused s o : writeable s = false ->
   match o with OCommitJournal _ | OCommitWal _ _ | ODrop | OImport _ _ _ => True | _ => False end ->
   fst (step s o) <> Done /\ txid (snd (step s o)) = txid s /\ chk (snd (step s o)) = chk s /\ ltxdir (snd (step s o)) = ltxdir s.
 Proof.
-  intros Hw. destruct o as [p q|n|c| | | |fr c| | | |b|f|pages commit ok|ages backup hwm|c2|pj qj]; intros Hm; try contradiction; clear Hm; cbn [step].
+  intros Hw. destruct o as [p q|n|c| | | |fr c| | | |b|f|pages commit ok|ages backup hwm|c2|pj qj|pz qz]; intros Hm; try contradiction; clear Hm; cbn [step].
   - unfold op_commit_journal. rewrite Hw. cbn. repeat split; discriminate || reflexivity.
   - unfold op_commit_wal. destruct (truncated_pages _ _ _ _) as [new|]; [|cbn; repeat split; discriminate || reflexivity].
     pose proof (checksum_same s c new) as Hs. destruct (checksum s c new) as [[post|] s1]; cbn [snd] in Hs;
@@ -142,4 +142,4 @@ Qed.
 Lemma writes_get_eacces h pr ss hw : In h [HWriteDB; HWriteJournal; HWriteWAL] -> answer_of h false pr ss hw = AAccess.
 Proof. cbn. intros [<-|[<-|[<-|[]]]]; reflexivity. Qed.
 Lemma nothing_that_changes_succeeds h ss hw : changes_database h = true -> answer_of h false false ss hw <> AOk.
-Proof. destruct h; cbn; try discriminate; intros _; discriminate. Qed.
+Proof. destruct h, hw; cbn; try discriminate; intros _; discriminate. Qed.
